@@ -33,6 +33,11 @@ let rec show_ty (Ty (cat, wraps, rt, ao)) : Stdlib.String.t =
   let w = match wraps with None -> "-" | Some l -> "{ " ^ String.concat "" (List.map (fun t -> show_ty t ^ " ") l) ^ "}" in
   let r = match rt with None -> "-" | Some None -> "&" | Some (Some a) -> "&" ^ ostr a in
   Printf.sprintf "(%s %s %s %s)" c w r (match ao with None -> "-" | Some _ -> "as")
+let char_of_punct = function PComma -> "," | PBang -> "!" | PQuote -> "'" | PAmp -> "&" | PColon -> ":" | PLt -> "<" | PGt -> ">" | PSemi -> ";" | PEq -> "=" | PPlus -> "+" | PMinus -> "-" | POther -> "?"
+let rec show_tts (l: tt list) : Stdlib.String.t =
+  String.concat "" (List.map (function
+    | TId s -> "I " ^ ostr s ^ " " | TP c -> "P " ^ char_of_punct c ^ " " | TLit n -> "L " ^ string_of_int (int_of_nat n) ^ " "
+    | TG (d, inner) -> (match d with Paren -> "G( " | Bracket -> "G[ " | Brace -> "G{ ") ^ show_tts inner ^ ") ") l)
 let rec depth_tt l = List.fold_left (fun acc t -> acc + (match t with TG (_, inner) -> 1 + depth_tt inner | _ -> 1)) 0 l
 let () =
   iter_lines Sys.argv.(1) (fun line ->
@@ -44,5 +49,8 @@ let () =
         | Ok (Some t, []) -> show_ty t
         | Ok (Some t, _) -> "LEFTOVER " ^ show_ty t
         | Ok (None, _) -> "NONE" | Panic -> "PANIC" | Unsup -> "UNSUP" | Fuel -> "FUEL" in
-      Printf.printf "FIELD %s TYPE %s\n" name r
+      Printf.printf "FIELD %s TYPE %s\n" name r;
+      (match next_type fuel tts with
+       | Ok (Some t, []) -> Printf.printf "FIELD %s PRINT %s\n" name (show_tts (pr t))
+       | _ -> Printf.printf "FIELD %s PRINT -\n" name)
     | _ -> ())
